@@ -1244,7 +1244,16 @@ class Scenario(TagAndStatusStatement, Replayable):
         # -- PERFORM CONTEXT-CLEANUP: May raise cleanup errors.
         try:
             runner.context._pop()       # pylint: disable=protected-access
-        except Exception:               # pylint: disable=broad-except
+        except Exception as e:          # pylint: disable=broad-except
+            # -- CLEANUP-ERROR: Remember what happened (for reporters).
+            error_message = u"CLEANUP-ERROR in scenario: %s: %s" % \
+                            (e.__class__.__name__, e)
+            if self.error_message:
+                # -- NOTE: One exception/failure is already stored.
+                self.error_message += u"\n"+ error_message
+            else:
+                self.store_exception_context(e)
+                self.error_message = error_message
             self.set_status(Status.error)
             failed = True
 
